@@ -56,6 +56,7 @@ MC_JOBS = {
     "forced": ("UrwidScreen", "MC_UrwidScreen_forced.cfg"),
     "dyn": ("UrwidScreen", "MC_UrwidScreen_dyn.cfg"),
     "bad": ("UrwidScreen", "MC_UrwidScreen_bad.cfg"),
+    "winch": ("UrwidScreen", "MC_UrwidScreen_winch.cfg"),
     "alloc": ("UrwidAlloc", "MC_UrwidAlloc.cfg"),
 }
 MC_ACTIONS = {
@@ -105,6 +106,8 @@ def run_models(rep: Report) -> None:
             need += ["NewWidget", "DropWidget"]
         if name == "bad":
             need += ["RedrawBad"]
+        if name == "winch":
+            need += ["Sigwinch", "ResizeHandled"]
         vac = [a for a in need if cov.get(a, (0, 0))[1] == 0]
         if vac and not res.violated:
             raise MachineryError(f"vacuous model {cfg}: actions never taken: {vac}")
@@ -150,6 +153,12 @@ def apply_op(w: cw.World, op: dict) -> str:
         return w.redraw(op["lay"])
     elif k == "bad":
         return w.redraw(op["lay"], bad=True)
+    elif k == "lost":
+        return w.redraw(op["lay"], lost=True)
+    elif k == "winch":
+        w.winch()
+    elif k == "handled":
+        w.handled()
     elif k == "same":
         return w.same(op["lay"])
     else:
@@ -205,8 +214,9 @@ def layout_table(res) -> dict:
 
 
 def edge_histories(rep: Report, cfg: str, ident: str, styles: list, max_len: int, limit: int | None,
-                   seed: int) -> list[dict]:
-    res = tlc.run("UrwidScreen", cfg, workers=1, timeout=600, check=False, jvm=JVM_SHORT)
+                   seed: int, res=None) -> list[dict]:
+    if res is None:
+        res = tlc.run("UrwidScreen", cfg, workers=1, timeout=600, check=False, jvm=JVM_SHORT)
     if res.rc != 0 or res.violated:
         raise MachineryError(f"edge dump {cfg} failed:\n" + "\n".join(res.stdout.splitlines()[-30:]))
     g = graph.from_result(res)
@@ -235,7 +245,7 @@ def edge_histories(rep: Report, cfg: str, ident: str, styles: list, max_len: int
                     break
                 e = g.edges[i]
                 o = e["op"]
-                if o["op"] in ("redraw", "bad", "same"):
+                if o["op"] in ("redraw", "bad", "same", "lost"):
                     arg = dict(o["arg"])
                     inv = arg["d"] // 10
                     arg["d"] = arg["d"] % 10
@@ -273,10 +283,11 @@ def edge_histories(rep: Report, cfg: str, ident: str, styles: list, max_len: int
     return scripts
 
 
-def alloc_histories(rep: Report, seed: int) -> list[dict]:
+def alloc_histories(rep: Report, seed: int, res=None) -> list[dict]:
     """Replay every edge of the allocator model with real widgets whose fresh indexes end at
     2**31 - 1 (``_ti_next_z_index`` fast-forwarded), following the real pop() choices."""
-    res = tlc.run("UrwidAlloc", "MC_UrwidAlloc_edges.cfg", workers=1, timeout=300, check=False, jvm=JVM_SHORT)
+    if res is None:
+        res = tlc.run("UrwidAlloc", "MC_UrwidAlloc_edges.cfg", workers=1, timeout=300, check=False, jvm=JVM_SHORT)
     if res.rc != 0 or res.violated:
         raise MachineryError("allocator edge dump failed:\n" + "\n".join(res.stdout.splitlines()[-30:]))
     g = graph.from_result(res)
@@ -589,6 +600,20 @@ def random_script(rng: random.Random, ident: str, length: int, *, leaf: bool, ba
                 nxt = last
             ops.append(dict(op="redraw", lay=nxt))
             last = nxt
+        elif x < 0.715 and last is not None and wf(last, g.live, cols, rows):
+            # the terminal is resized (size in cells unchanged): the next frame(s) are dropped by urwid,
+            # then the resize is handled and the SAME canvas object is painted
+            ops.append(dict(op="winch"))
+            nxt = last
+            for _ in range(rng.choice([1, 1, 2])):
+                cand = g.mutate(nxt) if rng.random() < 0.6 else {
+                    "k": "pile", "items": [{"n": rows - 1, "c": g.box(cols, rows - 1)}, {"n": 1, "c": g.txt()}]}
+                if wf(cand, g.live, cols, rows) and cand["k"] not in ("txt", "img"):
+                    nxt = cand
+                ops.append(dict(op="lost", lay=nxt))
+            ops.append(dict(op="handled"))
+            ops.append(dict(op="same", lay=nxt))
+            last = nxt
         elif x < 0.74:
             ops.append(dict(op="clear"))
         elif x < 0.77:
@@ -643,7 +668,8 @@ def validate(traces: list[dict], name: str, batch: int = 40, parallel: int = 6, 
     return verdicts, states, trans
 
 
-API = {"redraw": "draw_screen", "same": "draw_screen", "bad": "draw_screen", "start": "start", "stop": "stop",
+API = {"redraw": "draw_screen", "same": "draw_screen", "bad": "draw_screen", "lost": "draw_screen",
+       "dropped-frame": "draw_screen", "winch": "SIGWINCH", "handled": "resize-handled", "start": "start", "stop": "stop",
        "clear": "clear", "new": "UrwidImage", "drop": "UrwidImage.__del__", "inval": "UrwidImage",
        "clear_images": "clear_images", "clear_images-now": "clear_images"}
 
@@ -653,7 +679,7 @@ MACHINERY = {"bad-layout", "unexpected-output"}
 def signature(kind: dict, ident: str) -> str:
     v, ctx = kind["v"], kind["ctx"]
     api = {"composite": "draw_screen", "non-composite": "draw_screen", "non-composite-after-images": "draw_screen",
-           "failing-draw": "draw_screen"}.get(ctx, API.get(ctx, ctx))
+           "failing-draw": "draw_screen", "dropped-frame": "draw_screen"}.get(ctx, API.get(ctx, ctx))
     if v == "exception":
         return f"{api}:{ctx}:{kind['info']}"
     if v.startswith("alloc-") or v.startswith("z-"):
@@ -690,7 +716,7 @@ def judge(rep: Report, items: list[dict], name: str, selftest_too: bool = False)
         for k in ("redraws", "implied", "deletes", "clears", "wops", "toks"):
             rep.extra["judged"][k] = rep.extra["judged"].get(k, 0) + stats[k]
         for e in it["trace"]["events"]:
-            if e["op"] in ("redraw", "same", "bad"):
+            if e["op"] in ("redraw", "same", "bad", "lost"):
                 rep.distinct.add((scn["ident"], e["op"], json.dumps(e["lay"], sort_keys=True)))
         kinds = list(v["kinds"])
         first = v["verdict"]
@@ -832,13 +858,17 @@ def main(rep: Report, replay: dict | None) -> None:
     items: list[dict] = []
     t0 = time.time()
     sfx = "" if quick else "_T"
-    items += edge_histories(rep, f"MC_UrwidScreen_edges{sfx}.cfg", "kitty", ["kitty", "kitty", "block"],
-                            max_len=40, limit=None, seed=rep.seed)
-    items += edge_histories(rep, f"MC_UrwidScreen_edges_konsole{sfx}.cfg", "konsole", ["kitty", "kitty", "iterm2"],
-                            max_len=40, limit=None, seed=rep.seed + 1)
-    items += edge_histories(rep, f"MC_UrwidScreen_edges_forced{sfx}.cfg", "forced", ["kitty", "kitty", "block"],
-                            max_len=40, limit=None, seed=rep.seed + 2)
-    items += alloc_histories(rep, rep.seed)
+    # the four edge dumps are independent TLC runs: produced concurrently, then replayed one by one
+    plan = [(f"MC_UrwidScreen_edges{sfx}.cfg", "kitty", ["kitty", "kitty", "block"], 0),
+            (f"MC_UrwidScreen_edges_konsole{sfx}.cfg", "konsole", ["kitty", "kitty", "iterm2"], 1),
+            (f"MC_UrwidScreen_edges_forced{sfx}.cfg", "forced", ["kitty", "kitty", "block"], 2)]
+    dumps = tlc.run_many(
+        [dict(spec="UrwidScreen", cfg=c, workers=1, timeout=900, check=False, jvm=JVM_SHORT) for c, *_ in plan]
+        + [dict(spec="UrwidAlloc", cfg="MC_UrwidAlloc_edges.cfg", workers=1, timeout=300, check=False, jvm=JVM_SHORT)],
+        parallel=4)
+    for (cfg, ident, styles, k), res in zip(plan, dumps):
+        items += edge_histories(rep, cfg, ident, styles, max_len=40, limit=None, seed=rep.seed + k, res=res)
+    items += alloc_histories(rep, rep.seed, res=dumps[-1])
     rep.extra["t_replay"] = round(time.time() - t0, 1)
 
     t0 = time.time()
